@@ -167,7 +167,12 @@ def hConfig : Handler := fun impl => do
           | [y, j, f] => holdsSpellings t y j && holdsSpellings t y f
           | _ => false
         let nopanic := (secs.drop 6).all fun s => s ≠ ["panic"]
-        let bad := (if whole then [] else ["bad:C19:partial-acceptance"]) ++
+        -- "any configuration text is either rejected with an error or accepted": a crash of the
+        -- rule parser is neither (the storage parser's duplicate-id panic is finding C19-b and is
+        -- judged through its own class)
+        let rulesNoPanic := (secs.take 3).all fun s => s ≠ ["panic"]
+        let bad := (if rulesNoPanic then [] else ["bad:C19:rule-parser-crashes-instead-of-accepting-or-rejecting"]) ++
+                   (if whole then [] else ["bad:C19:partial-acceptance"]) ++
                    (if spell then [] else ["bad:C19:spellings-disagree"]) ++
                    (if nopanic then [] else ["bad:C19:query-panics-under-accepted-configuration"])
         if bad.isEmpty then "ok" else ",".intercalate bad
